@@ -82,6 +82,16 @@ def check_stats_add(ctx, rule, m):
     for f in ("min", "max"):
         ctx.check(kws.get(f) in (f"{f}(self.{f}, {o}.{f})", f"{f}({o}.{f}, self.{f})"), rule, f"Statistics.__add__:{f}",
                   f"{f} = {f}(self.{f}, other.{f})", f"{f} combined as `{got(f)}` - the merge is not symmetric in its operands", add.where)
+    # the combined record is what two Statistics give; anything else gives INVALID - and not the other way round
+    pol = {}
+    for p_ in function_paths(add.node):
+        cs_ = dict((U(s_[1]), s_[2]) for s_ in p_ if s_[0] == "cond")
+        k_ = cs_.get(f"isinstance({o}, Statistics)")
+        if k_ is not None and end_kind(p_) == "return":
+            pol[k_] = U(p_[-1][2].value)[:20]
+    ctx.check(pol.get(False) == "INVALID_STATISTICS" and str(pol.get(True, "")).startswith(("Statistics(", "dataclasses.replace(")), rule,
+              "Statistics.__add__:operand-test", "Statistics + Statistics combines; anything else is invalid",
+              f"results per `isinstance(other, Statistics)`: {pol}", add.where)
     med = kws.get("median")
     ctx.check(med == "np.nan" or (med is None and inherited is None), rule, "Statistics.__add__:median",
               "median dropped (nan)", f"median combined as `{got('median')}`", add.where)
@@ -249,6 +259,15 @@ def run(ctx):
     sm, s2, sw = Poly.sym("sum"), Poly.sym("sum2"), Poly.sym("weight")
     formula("mean", sm * sw.inv())
     formula("variance", s2 * sw.inv() - sm * sm * sw.inv() * sw.inv())
+    # the formula applies whenever there is any weight; otherwise NaN (an empty histogram has no variance)
+    vr = S.methods["variance"]
+    polv = {}
+    for p_ in function_paths(vr.node):
+        for s_ in p_:
+            if s_[0] == "cond" and U(s_[1]) in ("self.weight > 0", "0 < self.weight") and end_kind(p_) == "return":
+                polv[s_[2]] = U(p_[-1][2].value)
+    ctx.check(polv.get(False) == "np.nan" and polv.get(True) not in (None, "np.nan") and len(polv) == 2, "C14.b", "Statistics.variance:domain",
+              "formula iff weight > 0, NaN otherwise", f"variance returns per `self.weight > 0`: {polv}", vr.where)
     std = S.methods.get("std")
     rets = [U(n.value) for n in ast.walk(std.node) if isinstance(n, ast.Return)]
     ctx.check(rets == ["np.sqrt(self.variance())"], "C14.b", "Statistics.std", "std = sqrt(variance())",
